@@ -179,6 +179,14 @@ func treeAlphabet(r *Rng, t *Tree, extra []File) []Op {
 		ops = append(ops, Op{Kind: "string", Name: "slotfail", Data: mk([]string{"zf", "zg"}, VInt(z[0]), VInt(z[1]))})
 	}
 	ops = append(ops, Op{Kind: "response", Name: "slotfail", Data: mk([]string{"zf", "zg"}, VInt(0), VInt(1))})
+	// component arguments that are nil in one render and set in another (every position of the sorted keys)
+	for _, z := range [][3]Val{{VStr("A"), VStr("B"), VStr("C")}, {VNil(), VStr("B"), VStr("C")}, {VStr("A"), VNil(), VStr("C")}, {VStr("A"), VStr("B"), VNil()}} {
+		ops = append(ops, Op{Kind: "string", Name: "threeargs", Data: mk([]string{"pa", "pb", "pc"}, z[0], z[1], z[2])})
+	}
+	// data the conversion rejects (a reserved name), on two different pages and through the string API
+	bad := mk([]string{"n1", "loop"}, VInt(1), VInt(2))
+	ops = append(ops, Op{Kind: "string", Name: "dotpage", Data: bad}, Op{Kind: "string", Name: "rowpage", Data: bad},
+		Op{Kind: "response", Name: "sitepage", Data: bad}, Op{Kind: "evalstr", Src: "<p>{{ n1 }}</p>", Data: bad}, Op{Kind: "evalfile", Name: t.path("dotpage"), Data: bad})
 	return ops
 }
 
@@ -240,6 +248,9 @@ func genC16Tree(r *Rng) (*Scenario, *Tree, []Op) {
 		File{Path: t.path("revpage"), Data: "<p>{{ xs.rev() }}</p><p>{{ xs }}</p>", Role: "page"},
 		File{Path: t.path("allfuncs"), Data: BuiltinSweepSrc, Role: "page"},
 		File{Path: t.path("branchy"), Data: branchySrc, Role: "page"},
+		File{Path: t.path("components/three"), Data: "<i>[{{ alpha }}|{{ beta }}|{{ gamma }}]</i>", Role: "component"},
+		File{Path: t.path("threeargs"), Data: "@component(\"components/three\", {alpha: pa, beta: pb, gamma: pc})", Role: "page"},
+		File{Path: t.path("dynpage"), Data: "<p>{{ u.name }}</p>", Role: "page"},
 		File{Path: t.path("latepage"), Data: "<p>{{ s0.whisper(1) }}</p>", Role: "page"},
 		// one component used three times: without slots, with a slot whose body may fail, without again
 		File{Path: t.path("slotfail"), Data: "@component(\"components/card\", {title: \"plain\", n: 0})\n<hr>\n@component(\"components/card\", {title: \"filled\", n: 1})\n@slot<i>{{ 10 / zf }}</i>@end\n@slot(\"foot\")<b>{{ 20 / zg }}</b>@end\n@end\n<hr>\n@component(\"components/card\", {title: \"last\", n: 2})\n@slot(\"foot\")<u>tail</u>@end\n@end\n", Role: "page"},
